@@ -13,26 +13,31 @@ def cases_v(hs):
     rows = []
     for h in hs:
         sc = h["script"]
-        rows.append("(%d%%nat, (%d, %d, %d), [%s])" % (h["id"], sc["slot_ns"], sc["spe"], sc["start_ns"], ";\n   ".join(h["labels"])))
+        rows.append("(%d%%nat, (%d, %d, %d), (%s, %s), [%s])" % (h["id"], sc["slot_ns"], sc["spe"], sc["start_ns"], h.get("fm", "FOff"),
+                                                             "true" if h.get("ff") else "false", ";\n   ".join(h["labels"])))
     return """From Coq Require Import List NArith Bool.
 From Charon Require Import Flow.Scheduler.
 Import ListNotations.
 Local Open Scope N_scope.
-Definition cases : list (nat * (N * N * N) * list label) := [
+Definition case := (nat * (N * N * N) * (fmode * bool) * list label)%%type.
+Definition cases : list case := [
 %s
 ].
-Definition prm (c : nat * (N * N * N) * list label) := snd (fst c).
+Definition cid (c : case) := fst (fst (fst c)).
+Definition prm (c : case) := snd (fst (fst c)).
 Definition cD c := fst (fst (prm c)).
 Definition cS c := snd (fst (prm c)).
 Definition cT c := snd (prm c).
+Definition cFM (c : case) := fst (snd (fst c)).
+Definition cFF (c : case) := snd (snd (fst c)).
 Definition rejects := Eval vm_compute in
-  flat_map (fun c => match first_reject (cD c) (cS c) (init (cD c) (cT c)) (snd c) 0 with Some i => [(fst (fst c), i)] | None => [] end) cases.
+  flat_map (fun c => match first_reject (cD c) (cS c) (cFM c) (cFF c) (init (cD c) (cT c)) (snd c) 0 with Some i => [(cid c, i)] | None => [] end) cases.
 Definition monitor_hits := Eval vm_compute in
   flat_map (fun c => if wf_trace (cS c) (snd c)
-                     then match first_violation (cD c) (cS c) (ginit (cT c)) (snd c) 0 with Some i => [(fst (fst c), i)] | None => [] end
+                     then match first_violation (cD c) (cS c) (cFM c) (ginit (cT c)) (snd c) 0 with Some i => [(cid c, i)] | None => [] end
                      else []) cases.
 Definition not_wf := Eval vm_compute in
-  flat_map (fun c => if wf_trace (cS c) (snd c) then [] else [(fst (fst c), 0%%nat)]) cases.
+  flat_map (fun c => if wf_trace (cS c) (snd c) then [] else [(cid c, 0%%nat)]) cases.
 Print rejects.
 Print monitor_hits.
 Print not_wf.
@@ -46,6 +51,14 @@ def pairs(term):
 def classify(h, idx):
     """Stable key for a monitor violation at label idx of history h (python-side reading of the trace)."""
     lab = h["labels"][idx] if idx < len(h["labels"]) else ""
+    m = re.match(r"LFire (\d+) ", lab)
+    if m:
+        earlier = " ".join(h["labels"][:idx])
+        if re.search(r"LFire %s \[" % m.group(1), earlier) or re.search(r"T Attester %s \[" % m.group(1), earlier):
+            return "duty-triggered-twice"
+        return "attester-released-before-offset-or-unassigned"
+    if lab.startswith("LQuiet"):
+        return "due-attester-duty-not-released"
     m = re.match(r"LTick (\d+) ", lab)
     if not m:
         return "trace-monitor"
@@ -67,7 +80,8 @@ def main():
     R.assumptions = [
         "beacon-node answers are well formed (wf_trace): attester and proposer duties returned for epoch e lie in epoch e; without it the code can drop a duty (SchedulerFacts.off_epoch_answer_drops_duty); histories of kind 'offepoch' violate it on purpose and are checked against the model only",
         "'active' is what resolveActiveValidators computes: status.IsActive() or activation epoch = the epoch being resolved; the validators answer is a map (distinct indices) without nil elements; duties answers contain no nil elements",
-        "HandleChainReorgEvent (feature SSEReorgDuties, enabled in the harness) is atomic and runs between ticks; the FetchAttOnBlock* feature flags (alpha, off) are not modelled; builder registration, slot subscribers and GetDutyDefinition are not modelled",
+        "HandleChainReorgEvent (feature SSEReorgDuties, enabled in the harness) and HandleHeadEvent are atomic and run between ticks or between a tick's delivery and its dispatch; builder registration, slot subscribers and GetDutyDefinition are not modelled",
+        "feature flags fetch_att_on_block / fetch_att_on_block_with_delay are the model parameter fm (histories of kind 'flags' enable one or both): the attester duty then waits on the clock itself (waitForEarlyFetchOrTimeout) and the observable is the instant its subscribers are called (LFire), which must be >= slot start + 1/3 slot (+300ms); the early fetch-only call released by a head event (LHead) is checked against the model but is not constrained by the property; the harness keeps the fake clock equal to the synctest bubble time because the code mixes both (s.clock.After(time.Until(..)))",
         "a tick is handled when the ticker produces it (Run loop idle); a late delivery only makes the delivered slot older, slots still strictly increase",
         "attester duties are processed after slices.SortFunc (not stable): labels list them in processing order; the harness never puts a wrong-public-key attester entry in a slot shared with another entry, so the tie order is unobservable in the recorded histories",
         "the observable of a trigger is (duty, definition set, deadline passed to the delay function); the harness delay function returns at once, so 'not before its time' is: the tick is at/after the slot start and the deadline is slot start + the type's offset",
@@ -87,7 +101,8 @@ def main():
     R.coverage["distinct_nontrivial"] = len(seen)
     R.coverage["rule"] = ("histories of clock advances (one slot, part of a slot, several slots, exactly k slots, zero) and reorg events against scheduler.NewForT "
                           "with a scripted beacon node (per-call errors, wrong public keys, answers that change between retries, unknown / pending / exiting validators, "
-                          "non-cluster validator indices), fake clock, capturing delay function, in a synctest bubble; kinds: corpus, random, offepoch (answers outside the requested epoch: model only); "
+                          "non-cluster validator indices), fake clock, capturing delay function, in a synctest bubble; kinds: corpus, random, offepoch (answers outside the requested epoch: model only), "
+                          "flags (fetch_att_on_block / _with_delay / both, with or without a registered fetch-only function, head events for the previous/current/next slot at arbitrary instants, repeated, and between a tick's delivery and its dispatch); "
                           "non-trivial = at least one failed or aborted resolution or at least one skipped tick; distinct by hash of the observed label sequence")
     kinds, agg = {}, {}
     nlabels = 0
@@ -104,7 +119,10 @@ def main():
                                         "slots_per_epoch": spes, "slot_ns": durs,
                                         "histories_with_failed_resolution": sum(1 for h in hs if h["stats"]["Failed"] + h["stats"]["Aborted"] > 0),
                                         "histories_with_skipped_tick": sum(1 for h in hs if h["stats"]["Skipped"] > 0),
-                                        "histories_with_reorg": sum(1 for h in hs if h["stats"]["Reorgs"] > 0)}
+                                        "histories_with_reorg": sum(1 for h in hs if h["stats"]["Reorgs"] > 0),
+                                        "flag_modes": {k: sum(1 for h in hs if h.get("fm") == k) for k in ("FOff", "FOn", "FOnDelay")},
+                                        "histories_with_fetch_only_registered": sum(1 for h in hs if h.get("ff")),
+                                        "histories_with_head_event_between_delivery_and_dispatch": sum(1 for h in hs if h["stats"]["HookedHeads"] > 0)}
     R.add_samples([{"script": h["script"], "labels": h["labels"][:12]} for h in hs if h.get("nontrivial")][:2])
     byid = {h["id"]: h for h in hs}
     nwf = 0
